@@ -52,9 +52,11 @@ func (r *nodeRec) observe(op string, b int, pan string) {
 	var eb, bb []byte
 	var ei, bi []int
 	var mn, mx, n, real int
+	var lanes []byte
 	pan = guard(func() {
 		raw := r.h.Raw()
 		n, real = raw.N, raw.Real
+		lanes = raw.Lanes
 		for x := 0; x < 256; x++ {
 			find[x] = r.h.Find(byte(x))
 		}
@@ -74,6 +76,7 @@ func (r *nodeRec) observe(op string, b int, pan string) {
 	}
 	tr.fInt("n", n)
 	tr.fInt("real", real)
+	tr.fBytes("raw", lanes) // n4/n16: every lane as stored (incl. unoccupied ones); n48: slot numbers in byte order
 	tr.fInts("find", find[:])
 	tr.fBytes("eb", eb)
 	tr.fInts("ei", ei)
